@@ -185,6 +185,37 @@ class Model:
         self._own = {}
         self._types = None
         self._cg = None
+        self.canon_calls = self._canon_calls()
+
+    def _canon_calls(self):
+        """argument normal form for calls of package functions / methods / constructors (callee resolved through imports, receiver types
+        and the class hierarchy): keyword arguments that continue the positional prefix of the callee's parameter list are read as
+        positional (`f(system=s, threshold=t, radii=r)` with `def f(system, threshold, dist=None, radii=...)` -> `f(s, t, radii=r)`;
+        `f(s, t, d, radii=r)` -> `f(s, t, d, r)`), so a rule sees one spelling whichever way a call passes its leading arguments"""
+        n = 0
+        for fq, d in list(self.defs.items()):
+            if not isinstance(d, (ast.FunctionDef, ast.AsyncFunctionDef)):
+                continue
+            for call in [x for x in self.own_nodes(fq) if isinstance(x, ast.Call)]:
+                if not call.keywords or any(isinstance(a, ast.Starred) for a in call.args) or any(k.arg is None for k in call.keywords):
+                    continue
+                cs = self.callees_of_call(fq, call)
+                if len(cs) != 1:
+                    continue
+                callee = next(iter(cs))
+                fn = self.defs[callee]
+                if fn.args.vararg or fn.args.posonlyargs:
+                    continue
+                ps = self.params(callee)
+                kws = {k.arg: k for k in call.keywords}
+                moved = False
+                while len(call.args) < len(ps) and ps[len(call.args)] in kws:
+                    k = kws.pop(ps[len(call.args)])
+                    call.args.append(k.value)
+                    call.keywords.remove(k)
+                    moved = True
+                n += moved
+        return n
 
     # ------------------------------------------------------------------ definitions
     def _collect(self, m, node, prefix):
